@@ -283,4 +283,8 @@ def has_unparsed_table_cell(root):
                 ta, tb = mml.local(a.tag), mml.local(b.tag)
                 if ta not in ("mo", "mtext") and tb not in ("mo", "mtext"):
                     return True
+            # a fenced row whose contents are not grouped into one child: ( x , 5 ) with five children
+            if len(kids) > 3 and mml.local(kids[0].tag) == "mo" and mml.local(kids[-1].tag) == "mo" and \
+                    (kids[0].text or "") in "([{" and (kids[-1].text or "") in ")]}" and (kids[0].text or "") != "":
+                return True
     return False
